@@ -288,7 +288,10 @@ func runOne(sd StreamDef, cache int, s Sched) Rec {
 			r.Msgs = append(r.Msgs, MsgSum{Code: int(m.Code()), Tok: rec.Bytes(m.Token()), PayLen: len(body), PaySum: sum, NOpts: len(m.Options())})
 			mu.Unlock()
 		}
-	})
+	}, tcpclient.WithRequestMonitor(func(_ *tcpclient.Conn, m *pool.Message) (bool, error) {
+		// the application's request monitor refuses the messages whose token is DD: they are not dispatched - everything else is
+		return len(m.Token()) == 1 && m.Token()[0] == 0xDD, nil
+	}))
 	defer t.Close()
 	t.CC.SetTCPSignalReceivedHandler(func(c codes.Code) {
 		mu.Lock()
